@@ -221,7 +221,7 @@ package utils
 //@   Convert ConvertInstanceIdentifier TypedValueToYANGType ConvertTypedValueToYANGType ConvertToTypedValue
 //@   GetJsonValue GetSchemaValue GetValue FromGNMITypedValue FromGNMIPath ToGNMIPath ToSchemaNotification
 //@   TypedValueToXML AddXMLOperation GetNamespaceFromGetSchema GetSchemaElemModuleName DefaultValueExists DefaultValueRetrieve
-//@   getChild getField getItem getLeafList isKey isLeafOfType
+//@   getChild getField getItem getLeafList isKey isLeafOfType convertUpdateTypedValue
 
 // thin contracts of library functions the swept code indexes with (assumed, listed in the evidence)
 //@ extern strings.Index
